@@ -394,6 +394,31 @@ theorem reference_hybrid_classes (ps : List Proto) (hn : ps.Nodup) (a b : Proto)
     rw [shares_comm y x, Bool.or_self]
   simp only [this]
 
+/-- the chain classes of `shareGroups` do not depend on the order of the list -/
+theorem linked_shareGroups_of_sub {l l' : List Proto} (hl : l.Nodup) (hsub : ∀ x, x ∈ l → x ∈ l') {a b : Proto}
+    (h : Linked (shareGroups l) a b) : Linked (shareGroups l') a b := by
+  induction h with
+  | @base g x y hg hx hy =>
+    obtain ⟨p, q, hb, hs, e⟩ := mem_shareGroups.1 hg
+    subst e
+    have hne := before_ne hl hb
+    obtain ⟨hp, hq⟩ := before_mem hb
+    rcases before_total (hsub p hp) (hsub q hq) hne with hb' | hb'
+    · exact Linked.base (mem_shareGroups.2 ⟨p, q, hb', hs, rfl⟩) hx hy
+    · exact Linked.base (mem_shareGroups.2 ⟨q, p, hb', by rw [shares_comm]; exact hs, rfl⟩)
+        (pair_sub_swap hx) (pair_sub_swap hy)
+  | trans _ _ ih1 ih2 => exact Linked.trans ih1 ih2
+
+/-- the reference's hybrid classes (computed on the input order) are the chain classes of the model's
+    own order (`sortProtos`) -/
+theorem reference_hybrid_classes_sorted (ps : List Proto) (hn : ps.Nodup) (a b : Proto) :
+    (∃ c, c ∈ (classesOf shareGene ps).filter (fun c => c.length ≥ 2) ∧ a ∈ c ∧ b ∈ c) ↔
+      Linked (shareGroups (sortProtos ps)) a b := by
+  rw [reference_hybrid_classes ps hn]
+  constructor
+  · exact linked_shareGroups_of_sub hn fun x hx => mem_sortProtos.2 hx
+  · exact linked_shareGroups_of_sub (nodup_sortProtos hn) fun x hx => mem_sortProtos.1 hx
+
 /-! ### the interleaved / neighbouring classes of the reference, as protocluster groups -/
 
 theorem mem_specUnion {a b : List Proto} {x : Proto} : x ∈ Spec.union a b ↔ x ∈ a ∨ x ∈ b := by
